@@ -434,7 +434,7 @@ def plan(tier):
 
 def _plan_seam(tier):
     quick = tier == "quick"
-    docs = ["basic", "parenta", "holder", "qnames", "enums", "nillable", "nsattr", "wrapped", "anystr", "family"] if quick else [d for d in mutate.DOCS if d not in ("mixed",)]
+    docs = ["basic", "parenta", "holder", "qnames", "enums", "nillable", "nsattr", "wrapped", "anystr", "family"] if quick else [d for d in mutate.DOCS if d not in ("mixed", "temporal")]  # temporal: the datetime parsers run regular expressions on the (symbolic, padded) lexical values, which CrossHair cannot follow (its text-level twin text_pad covers them)
     jobs = []
     for d_i, doc in enumerate(docs):
         for writer in (("native",) if quick else ("native", "lxml")):
